@@ -241,6 +241,10 @@ def run_job(job):
                 ev["out"], ev["exc"] = conv(out), exc
             elif name == "Batch":
                 fn = with_ctx(mod.FNS[op["f"]], op["c"])
+                if op.get("mod") == "local":
+                    fn = fn.force_local()
+                elif op.get("mod") == "ignore":
+                    fn = fn.ignore_result()
                 if op.get("how") in ("map", "map_iter"):
                     def thunk():
                         # map_iter: the range is a one-shot iterable (a generator), not a list
